@@ -197,6 +197,42 @@ FamWatch ==
     : w \in [1..3 -> {1, 2}], p1 \in {0, 4}, au \in BOOLEAN, wl \in {<<1>>, <<1, 3>>, <<3>>},
       d \in {<<>>, <<<<1, 3, "FS">>>>, <<<<2, 1, "FS">>>>}, al \in {<<>>, <<1>>} }
 
+\* ---- FamEdge: unusual inputs --------------------------------------------------------------
+\* tasks that share a name (hence skills), no workers at all, a team without workers, a task
+\* without a team, zero work / zero skill / zero cost everywhere, a single task, a long chain
+EdgeTask(work, rank, teams) == Task(work, 0, FALSE, 1, FALSE, 0, teams, <<>>, rank)
+FamEdge ==
+  \* (a) task 2 carries the name of task 1: workers skilled for "t1" serve both
+  { Cfg("edge-alias", 1,
+        << EdgeTask(w[1], 0, <<1>>), EdgeTask(w[2], 1, <<1>>) @@ [alias |-> 1], EdgeTask(w[3], 2, <<1>>) >>,
+        d, 1, << PlainWorker(<<s1, 2, 0>>, 1), PlainWorker(<<0, 0, 1>>, 2) >>, <<>>, <<>>, <<>>,
+        Opt(<<>>, FALSE, rule, 12))
+    : w \in [1..3 -> {1, 2}], s1 \in {1, 2}, rule \in {"TSLACK", "SPT", "FIFO"},
+      d \in {<<>>, <<<<1, 2, "FS">>>>, <<<<1, 2, "SS">>, <<2, 3, "FF">>>>} }
+  \cup
+  \* (b) no workers / an empty second team / a task without a team / auto tasks only
+  { Cfg("edge-empty", 1,
+        << Task(w1, 0, au, 1, FALSE, 0, tm, <<>>, 0), Task(1, 0, TRUE, 1, FALSE, 0, <<>>, <<>>, 1) >>,
+        d, 2, ws, <<>>, <<>>, <<>>, Opt(al, aa, "TSLACK", 8))
+    : w1 \in {0, 1, 2}, au \in BOOLEAN, tm \in {<<>>, <<1>>, <<2>>, <<1, 2>>},
+      ws \in {<<>>, << Worker(1, <<1, 1>>, <<>>, 1, FALSE, <<>>, 0) >>},
+      d \in {<<>>, <<<<2, 1, "FS">>>>, <<<<1, 2, "SS">>>>}, al \in {<<>>, <<0, 1>>}, aa \in BOOLEAN }
+  \cup
+  \* (c) zeros everywhere: zero work, zero skill, zero cost; a single task
+  { Cfg("edge-zero", 1,
+        [t \in 1..n |-> EdgeTask(wk, t - 1, <<1>>)],
+        IF n = 1 THEN <<>> ELSE <<<<1, 2, k>>>>, 1,
+        << PlainWorker([t \in 1..n |-> sk], 0) >>, <<>>, <<>>, <<>>, Opt(<<>>, FALSE, "TSLACK", 6))
+    : n \in {1, 2}, wk \in {0, 1}, sk \in {0, 1}, k \in Kinds }
+  \cup
+  \* (d) a chain of six tasks with one shared worker and one kind of link
+  { Cfg("edge-chain", 1,
+        [t \in 1..6 |-> EdgeTask(IF t = z THEN 0 ELSE 1, (t * 5) % 7, <<1>>)],
+        [i \in 1..5 |-> <<i, i + 1, k>>], 1,
+        << PlainWorker([t \in 1..6 |-> 1], 1), PlainWorker([t \in 1..6 |-> IF t % 2 = 0 THEN 2 ELSE 0], 2) >>,
+        <<>>, <<>>, <<>>, Opt(al, FALSE, rule, 20))
+    : z \in {0, 3, 6}, k \in Kinds, al \in {<<>>, <<2, 3>>}, rule \in {"TSLACK", "LRPT"} }
+
 \* ---- FamSort: inputs of the four sorting functions ---------------------------------------
 \* A sort case is a small cfg (only the lists the function looks at are populated), the
 \* function, the rule mode, the task whose name is passed (t) and the target workplace (p),
@@ -338,6 +374,7 @@ Family(name, tier) ==
                          ELSE FamPairs({<<1, 2, 1>>, <<2, 1, 1>>, <<1, 1, 2>>, <<2, 2, 2>>}, {<<1, 1>>, <<1, 0>>, <<0, 1>>},
                                        [1..3 -> BOOLEAN], [1..2 -> BOOLEAN], {<<>>, <<0>>, <<1>>, <<2, 1>>}, {<<>>, <<0>>, <<1>>, <<2, 1>>})
     [] name = "dag"   -> FamDag
+    [] name = "edge"  -> FamEdge
     [] name = "watch" -> FamWatch
     \* two dependencies between the same pair of tasks
     [] name = "deps2" -> { Cfg("deps2", 1, [t \in 1..3 |-> PlainTask(w[t], r[t] - 1)],
